@@ -15,9 +15,9 @@ import vlib
 from emit import Q2
 from m3 import M3, SQ2, q
 
-PROPS = ["TfelVerif.C02.PropsT", "TfelVerif.C02.PropsN1", "TfelVerif.C02.PropsN2", "TfelVerif.C02.Props3ST",
-         "TfelVerif.C02.Props3TT", "TfelVerif.C02.Props3TS", "TfelVerif.C02.Props3S2T", "TfelVerif.C02.Props3PF",
-         "TfelVerif.C02.Props3CB", "TfelVerif.C02.Props"]
+PROPS = ["TfelVerif.C02." + m for m in (
+    "PropsT", "PropsN1", "Props2ST", "Props2TT", "Props2TS", "Props2S2T", "Props3ST", "Props3TT", "Props3TS", "Props3S2T",
+    "PropsPF", "PropsCB", "Props")]
 PARTS = [1, 2, 3, 4, 5]     # -DC02_PART=<k> (see main() of the tracer)
 REPO_SRC = ["/src/Exception/ContractViolation.cxx", "/src/Exception/TFELException.cxx", "/src/Math/MathException.cxx",
             "/src/Math/TensorConcept.cxx"]
@@ -29,13 +29,13 @@ def group_of(name):
     n, fam, op = m.group(1), m.group(2), m.group(3)
     if fam == "t":
         return "GenT"
-    if n != "3":
-        return "GenN" + n
     if op in ("push_forward", "pull_back"):
-        return "Gen3PF"
+        return "GenPF"
     if op == "change_basis":
-        return "Gen3CB"
-    return {"st": "Gen3ST", "tt": "Gen3TT", "ts": "Gen3TS", "s2t": "Gen3S2T"}[fam]
+        return "GenCB"
+    if n == "1":
+        return "GenN1"
+    return "Gen" + n + fam.upper()
 
 
 # ---------------------------------------------------------------------------------------------------
